@@ -307,9 +307,10 @@ def run_property(mod, tier):
         "coverage": cov, "assumptions": getattr(mod, "ASSUMPTIONS", []),
         "wall_s": round(time.time() - t0, 2), "violations": len(violations),
     }
-    os.makedirs(os.path.join(env.VERIF, "evidence"), exist_ok=True)
-    with open(os.path.join(env.VERIF, "evidence", f"{prop}.json"), "w", encoding="utf-8") as f:
-        json.dump(ev, f, indent=1, ensure_ascii=True, default=repr)
+    if not os.environ.get("MFV_NO_EVIDENCE"):  # sensitivity runs against scratch copies leave the evidence alone
+        os.makedirs(os.path.join(env.VERIF, "evidence"), exist_ok=True)
+        with open(os.path.join(env.VERIF, "evidence", f"{prop}.json"), "w", encoding="utf-8") as f:
+            json.dump(ev, f, indent=1, ensure_ascii=True, default=repr)
 
     for l in kf_lines:
         print(l)
